@@ -593,7 +593,8 @@ func (wd *c26World) decode(slot int) {
 	}
 }
 
-func (wd *c26World) context() string {
+func (wd *c26World) context() (string, uint32) {
+	var mask uint32
 	var kinds []string
 	seen := map[string]bool{}
 	add := func(s string) {
@@ -613,16 +614,21 @@ func (wd *c26World) context() string {
 		case an.code == 0:
 		case an.code < 100:
 			add("short count")
+			mask |= 1
 		case an.code == 999:
 			add("no progress")
+			mask |= 2
 		default:
 			multi := ei < wd.nents && wd.ents[ei].np >= 2
 			if wd.errs[an.code-100] == unix.EIO && multi {
 				add("EIO on an offloaded entry")
+				mask |= 4
 			} else if multi {
 				add("rejected offloaded entry")
+				mask |= 8
 			} else {
 				add("rejected entry")
+				mask |= 16
 			}
 		}
 	}
@@ -639,14 +645,22 @@ func (wd *c26World) context() string {
 	}
 	if hole {
 		s += "; batch has an unroutable destination"
+		mask |= 32
 	}
 	if wd.cfg.gso {
 		s += "; GSO on"
 	} else {
 		s += "; GSO off"
 	}
-	return s
+	return s, mask
 }
+
+// c26Reported keeps, per clause and GSO mode, the fault contexts already reported: a violation whose context is a
+// superset of a reported one is the same defect seen through more faults and is not reported again.
+var c26Reported = struct {
+	sync.Mutex
+	m map[string][]uint32
+}{m: map[string][]uint32{}}
 
 func (wd *c26World) detail(written int, err error, extra map[string]any) map[string]any {
 	var calls []string
@@ -731,10 +745,21 @@ func (wd *c26World) runOne(e *mc.Enum) {
 	wd.st.evals++
 	c := wd.c
 	ctx := ""
+	var ctxMask uint32
 	viol := func(clause string, extra map[string]any) {
 		if ctx == "" {
-			ctx = wd.context()
+			ctx, ctxMask = wd.context()
 		}
+		key := fmt.Sprintf("%s|%v", clause, wd.cfg.gso)
+		c26Reported.Lock()
+		for _, m := range c26Reported.m[key] {
+			if m&ctxMask == m && m != ctxMask {
+				c26Reported.Unlock()
+				return
+			}
+		}
+		c26Reported.m[key] = append(c26Reported.m[key], ctxMask)
+		c26Reported.Unlock()
 		c.Violation(clause+" ["+ctx+"]", wd.detail(written, err, extra))
 	}
 	if pan != nil {
@@ -1089,7 +1114,7 @@ func TestVerifC26(t *testing.T) {
 	var wg sync.WaitGroup
 	var capped atomic.Bool
 	var samples []any
-	stop := func() bool { return c.OutOfTime() || c.Violations() > 60 }
+	stop := func() bool { return c.OutOfTime() || c.Violations() > 20 }
 	for wk := 0; wk < runtime.GOMAXPROCS(0); wk++ {
 		wg.Add(1)
 		go func() {
